@@ -413,6 +413,34 @@ func (c *Ctx) credOfToken(res, tok ssa.Value, depth int) []Cred {
 				all = append(all, cs...)
 				continue
 			}
+			// Localizef(<phi of keys>): the success key may be selected only over verified edges
+			if lc, li := CallOf(v); lc != nil && li == 0 && Callee(lc) == fnLocalizef {
+				if phi, ok := Arg(lc, 2).(*ssa.Phi); ok {
+					okPhi := true
+					for i, e := range phi.Edges {
+						g := loadOfGlobal(e)
+						if g == nil {
+							okPhi = false
+							break
+						}
+						if g != want {
+							continue
+						}
+						matched = true
+						cs := c.credsAtEdge(phi.Block().Preds[i], phi.Block())
+						if len(cs) == 0 {
+							cs = c.credsOfFacts(FactsAtInstr(ret))
+						}
+						if len(cs) == 0 {
+							return nil
+						}
+						all = append(all, cs...)
+					}
+					if okPhi {
+						continue
+					}
+				}
+			}
 			return nil // a return value the rule does not understand
 		}
 	}
